@@ -1551,9 +1551,14 @@ func (s *Store) processLTXStreamFrame(ctx context.Context, frame *LTXStreamFrame
 	// remote lock must have expired or been released so we can clear it locally.
 	//
 	// We also hold the local WRITE lock so a local write cannot be in-progress.
-	if haltLock := db.RemoteHaltLock(); haltLock != nil {
+	// That also means the lock must be unset without re-acquiring the WRITE lock.
+	//
+	// Frames at or before the halt lock's position are only catching this node
+	// up to the position where the lock was granted so they are not a sign that
+	// the lock has been lost.
+	if haltLock := db.RemoteHaltLock(); haltLock != nil && hdr.MinTXID > haltLock.Pos.TXID {
 		TraceLog.Printf("[ProcessLTXStreamFrame.Unhalt(%s)]: replica holds HALT lock but received LTX file, unsetting HALT lock", db.Name())
-		if err := db.UnsetRemoteHaltLock(ctx, haltLock.ID); err != nil {
+		if err := db.unsetRemoteHaltLock(ctx, haltLock.ID, true); err != nil {
 			return fmt.Errorf("release remote halt lock: %w", err)
 		}
 	}
